@@ -34,7 +34,7 @@
 From AQ Require Import Lib.Bytes Lib.Keccak Rlp.RlpSpec Trie.MptSpec Bloom.BloomModel
   Import.ImportModel Import.ImportProofs Import.DeriveShaCode Import.DeriveShaProofs.
 From AQ Require Trie.TrieModel State.StateSpec State.StateModel.
-From AQ Require Import Import.ImportC09 Import.ImportRel Import.ImportTx Import.ImportTxProofs.
+From AQ Require Import Import.ImportC09 Import.ImportRel Import.ImportTx Import.ImportTxProofs Import.UncleModel Import.UncleProofs.
 From Coq Require Import Permutation.
 Local Open Scope N_scope.
 
@@ -372,3 +372,50 @@ Proof.
   split; [exact ok_order_id|]. split; [exact ok_order_rev|].
   vm_compute. split; [reflexivity|]. split; reflexivity.
 Qed.
+
+(* ================================================================================================
+   The miner's uncle selection (Import/UncleModel.v: worker.makeCurrent's ancestors/family sets,
+   commitUncle, the loop of commitNewWork over the possibleUncles map in ANY order) against the
+   structural checks of the engine's VerifyUncles (count limits, duplicate, uncle-is-ancestor,
+   dangling).  `ancs` = the 7 blocks from the parent back, each with its hash and the hashes of
+   the uncles it included (identity of an uncle = its hash under the version of its own height).
+   ================================================================================================ *)
+
+(* whatever the map order, the uncles the worker takes pass VerifyUncles' structural checks on the
+   block that carries them.  Premises: no possible uncle is a child of the head (commitUncle does
+   not check it — such a block would have become the head instead of a side block), and the new
+   block's hash is none of the candidates' hashes.  The uncle's own header validity is C13's. *)
+Theorem C01_selected_uncles_verify :
+  forall (hf5 : bool) (ancs : list anc) (head : anc) (rest : list anc) (cands picked bad : list cand) (block_hash : bytes),
+  ancs = head :: rest ->
+  (forall c, In c cands -> c_parent c <> a_hash head) ->
+  (forall c, In c cands -> c_hash c <> block_hash) ->
+  select_uncles ancs cands [] [] [] = (picked, bad) ->
+  verify_uncles_struct hf5 ancs block_hash (a_hash head) picked = None.
+Proof. exact selected_uncles_verify. Qed.
+Print Assumptions C01_selected_uncles_verify.
+
+(* an uncle one of the 7 ancestors already included, or an ancestor itself, is never taken (again) *)
+Theorem C01_included_uncle_not_reselected :
+  forall (ancs : list anc) (cands picked bad : list cand) (c : cand),
+  select_uncles ancs cands [] [] [] = (picked, bad) -> In c picked ->
+  ~ In (c_hash c) (flat_map a_uncles ancs) /\ ~ In (c_hash c) (ancestors ancs).
+Proof. exact included_uncle_not_reselected. Qed.
+Print Assumptions C01_included_uncle_not_reselected.
+
+(* non-vacuity: three ancestors, the nearest of which included uncle 0xa1; candidates: that uncle
+   again (in family), an unknown-parent block, an ancestor, a valid sibling of the head, a second
+   valid one.  The worker takes exactly the first valid one and finds three bad; VerifyUncles'
+   structure accepts it; re-including 0xa1 would be a duplicate *)
+Example C01_uncle_example :
+  let h (n : N) := be_fixed 32 n in
+  let ancs := [mkAnc (h 13) [h 161]; mkAnc (h 12) []; mkAnc (h 11) []] in
+  let cands := [mkCand (h 161) (h 11); mkCand (h 200) (h 99); mkCand (h 12) (h 11);
+                mkCand (h 170) (h 12); mkCand (h 171) (h 11)] in
+  select_uncles ancs cands [] [] [] =
+    ([mkCand (h 170) (h 12)], [mkCand (h 161) (h 11); mkCand (h 200) (h 99); mkCand (h 12) (h 11)]) /\
+  verify_uncles_struct true ancs (h 14) (h 13) [mkCand (h 170) (h 12)] = None /\
+  verify_uncles_struct true ancs (h 14) (h 13) [mkCand (h 161) (h 11)] = Some VDuplicate /\
+  verify_uncles_struct true ancs (h 14) (h 13) [mkCand (h 180) (h 13)] = Some VDangling /\
+  verify_uncles_struct true ancs (h 14) (h 13) [mkCand (h 170) (h 12); mkCand (h 171) (h 11)] = Some VTooMany.
+Proof. vm_compute. split; [reflexivity|]. split; [reflexivity|]. split; [reflexivity|]. split; reflexivity. Qed.
